@@ -672,6 +672,10 @@ class C01(fw.Prop):
         for i in range(250 if tier == "quick" else 2500):
             cases.append({"seed": rng.randrange(1 << 30), "root": "dfg", "allow": ["nested", "order", "md"],
                           "size": rng.choice([5, 8, 10, 14]), "depth": rng.choice([2, 3, 4, 5])})
+        # the tracked dataflow builder (TrackedDfg.add / extend / track_wire / untrack_wire / set_*_outputs): commands
+        # mix tracked indices and explicit wires in any order (drawn last: the seeds of the streams above are unchanged)
+        for i in range(48 if tier == "quick" else 500):
+            cases.append({"seed": rng.randrange(1 << 30), "root": "tdfg"})
         return cases
 
     def program(self, case):
@@ -1009,6 +1013,15 @@ NAMED = {
             {"k": "call", "func": "local1", "args": [5], "inst": None, "targs": None, "id": 3, "outs": [4]}],
             "outs": [4], "out_tys": ["B"], "defs": []}},
 }
+# seeded change C01-b (missed before the tracked builder was in the stream): a command with an explicit wire BEFORE a
+# tracked index, of different types: op(wire: Bool, idx: Qubit); the index must be re-pointed at output 1, then used
+NAMED["tracked_wire_before_index"] = {
+    "root": "tdfg", "ins": ["B", "Q"], "in_wires": [1, 2], "track_inputs": False, "track_these": [2],
+    "stmts": [
+        {"k": "tadd", "op": ["custom", "cflip", ["B", "Q"], ["B", "Q"]], "args": [["w", 1], ["i", 0]], "outs": [3, None],
+         "via": "add", "id": 1},
+        {"k": "tadd", "op": ["custom", "h", ["Q"], ["Q"]], "args": [["i", 0]], "outs": [None], "via": "add", "id": 2},
+        {"k": "tout", "mode": "indexed", "args": [["w", 3], ["i", 0]], "id": 3}]}
 NEG_NAMED = ["localfn", "divmod_partial_ext"]
 
 PROP = C01()
